@@ -105,7 +105,65 @@ func fnVarArgs(f *tengo.CompiledFunction) bool {
 
 type ptrIDs map[*tengo.CompiledFunction]int
 
+// fnAlias: RemoveDuplicates rewrites the function constants in COPIES (repair O46): the output's function objects are
+// not the input's. aliasFns records, for every function object of an output pool that is not an input object, the
+// input function it is the rewritten copy of (same frame layout, same length, same source map, same order); every
+// identity-based oracle below goes through origFn. A function of the output without such an origin stays unknown.
+var fnAlias = map[*tengo.CompiledFunction]*tengo.CompiledFunction{}
+
+func origFn(f *tengo.CompiledFunction) *tengo.CompiledFunction {
+	for i := 0; i < 8; i++ {
+		o, ok := fnAlias[f]
+		if !ok {
+			break
+		}
+		f = o
+	}
+	return f
+}
+
+func srcMapPtr(f *tengo.CompiledFunction) uintptr {
+	if f.SourceMap == nil {
+		return 0
+	}
+	return reflect.ValueOf(f.SourceMap).Pointer()
+}
+
+func aliasFns(before snapshot, after *tengo.Bytecode) {
+	isInput := map[*tengo.CompiledFunction]bool{}
+	for _, f := range before.fns {
+		isInput[f.fn] = true
+	}
+	used := map[*tengo.CompiledFunction]bool{}
+	for _, g := range lib.Functions(after) {
+		if isInput[g] {
+			used[g] = true
+		}
+	}
+	for _, g := range lib.Functions(after) {
+		if isInput[g] {
+			continue
+		}
+		if _, ok := fnAlias[g]; ok {
+			continue
+		}
+		for _, f := range before.fns {
+			if used[f.fn] || f.fn.NumLocals != g.NumLocals || f.fn.NumParameters != g.NumParameters || fnVarArgs(f.fn) != fnVarArgs(g) ||
+				len(f.insts) != len(g.Instructions) || srcMapPtr(f.fn) != srcMapPtr(g) {
+				continue
+			}
+			used[f.fn] = true
+			fnAlias[g] = f.fn
+			break
+		}
+	}
+	if len(fnAlias) > 200000 { // per-program tables: keep the process small
+		fnAlias = map[*tengo.CompiledFunction]*tengo.CompiledFunction{}
+	}
+}
+
 func (p ptrIDs) id(f *tengo.CompiledFunction) int {
+	f = origFn(f)
 	if v, ok := p[f]; ok {
 		return v
 	}
@@ -167,7 +225,7 @@ func snap(bc *tengo.Bytecode) snapshot {
 // sameConst: does b stand for the same constant as a? strict: floats by bit pattern (programs);
 // otherwise by Go == (pools with ±0).
 func sameConst(a, b tengo.Object, strict bool) bool {
-	if a == b {
+	if a == b || sameFnObject(a, b) {
 		return true
 	}
 	switch a := a.(type) {
@@ -232,19 +290,25 @@ func checkRefs(in replayInput, before snapshot, after *tengo.Bytecode, strict bo
 			Oracle: "decoded operands of the real RemoveDuplicates output against a snapshot of the input"})
 	}
 	// every function constant of the output is one of the input's functions
+	aliasFns(before, after)
 	known := map[*tengo.CompiledFunction]bool{}
 	for _, f := range before.fns {
 		known[f.fn] = true
 	}
+	now := map[*tengo.CompiledFunction]*tengo.CompiledFunction{} // input function -> the object that stands for it in the output
 	for _, f := range lib.Functions(after) {
-		if !known[f] {
-			bad("dedup-unknown-function-in-output", "function constant not present in the input", "subset of the input's functions")
+		if !known[origFn(f)] {
+			bad("dedup-unknown-function-in-output", "function constant not present in the input (and not the rewritten copy of one)", "subset of the input's functions")
+			continue
+		}
+		if _, dup := now[origFn(f)]; !dup {
+			now[origFn(f)] = f
 		}
 	}
-	live := map[*tengo.CompiledFunction]bool{after.MainFunction: true}
+	live := map[*tengo.CompiledFunction]bool{origFn(after.MainFunction): true}
 	for _, c := range after.Constants {
 		if f, isFn := c.(*tengo.CompiledFunction); isFn {
-			live[f] = true
+			live[origFn(f)] = true
 		}
 	}
 	for fi, f := range before.fns {
@@ -253,7 +317,7 @@ func checkRefs(in replayInput, before snapshot, after *tengo.Bytecode, strict bo
 			continue
 		}
 		old, e1 := lib.Decode(f.insts)
-		cur, e2 := lib.Decode(f.fn.Instructions)
+		cur, e2 := lib.Decode(now[f.fn].Instructions)
 		if e1 != nil || e2 != nil || len(old) != len(cur) {
 			bad("dedup-instruction-stream-changed", fmt.Sprintf("function #%d: %v %v %d/%d instructions", fi, e1, e2, len(old), len(cur)), "same instruction boundaries")
 			continue
@@ -306,6 +370,12 @@ func checkNoDups(in replayInput, after *tengo.Bytecode, ids ptrIDs, stream strin
 	}
 }
 
+func sameFnObject(a, b tengo.Object) bool {
+	fa, ok1 := a.(*tengo.CompiledFunction)
+	fb, ok2 := b.(*tengo.CompiledFunction)
+	return ok1 && ok2 && origFn(fa) == origFn(fb)
+}
+
 // keptOrigins: for every output constant the input index it was taken from (same object).
 func keptOrigins(before []tengo.Object, after []tengo.Object) string {
 	parts := []string{"kept"}
@@ -313,7 +383,7 @@ func keptOrigins(before []tengo.Object, after []tengo.Object) string {
 	for _, c := range after {
 		idx := len(before)
 		for i := last + 1; i < len(before); i++ {
-			if before[i] == c {
+			if before[i] == c || sameFnObject(before[i], c) {
 				idx = i
 				break
 			}
@@ -628,6 +698,7 @@ func checkProgram(in replayInput) {
 			Expected: "no panic", Oracle: "RemoveDuplicates on the output of the real compiler"})
 		return
 	}
+	aliasFns(before, ded.BC)
 	removed := nBefore - len(ded.BC.Constants)
 	res.Count("dedup", line, removed > 0)
 	renumStream(in, orig.BC, before.consts, ded.BC, removed)
@@ -649,7 +720,8 @@ func checkProgram(in replayInput) {
 	res.Dist(fmt.Sprintf("removed-constants:%s", bucket(removed)))
 	// idempotence on the real code: a second pass changes nothing
 	again := bcSexp(ded.BC, ids)
-	if pv := safeCall(func() { ded.BC.RemoveDuplicates() }); pv != "" {
+	before2 := snap(ded.BC)
+	if pv := safeCall(func() { ded.BC.RemoveDuplicates(); aliasFns(before2, ded.BC) }); pv != "" {
 		res.Violate(lib.Violation{Signature: "dedup-panics", Stream: "dups", Input: in, Observed: "second RemoveDuplicates: panic: " + pv,
 			Expected: "RemoveDuplicates returns", Oracle: "recover around the call"})
 		return
@@ -972,6 +1044,7 @@ func poolCase(r *lib.RNG, bigN int) {
 			Expected: "no panic: every operand is a valid index", Oracle: "RemoveDuplicates"})
 		return
 	}
+	aliasFns(before, bc)
 	if n <= maxModelConsts {
 		correspond(in, "pool", line, before.consts, bc, ids, "")
 	} else {
